@@ -326,6 +326,9 @@ impl C20 {
                 dig.add_all(&[ei as u64, rep as u64, order]);
             }
         }
+        if seq.old.len() > 2000 {
+            out.count("huge_unique_cases", 1);
+        }
         if any_order_change {
             let mut d = Dig::new();
             d.add(case.entry as u64);
@@ -418,6 +421,17 @@ impl Prop for C20 {
             seq.alg = crate::gen::Alg::Patience;
         }
         seq.index = IndexKind::Slice;
+        // rarely: more than a thousand unique items on each side (Patience)
+        let huge = rng.chance(if tier == Tier::Quick { 1 } else { 2 }, 100);
+        if huge {
+            let blocks = 1100 + rng.usize(900);
+            let (o, n) = crate::gen::gen_unique_heavy(rng, blocks);
+            seq.old_range = (0, o.len());
+            seq.new_range = (0, n.len());
+            seq.old = o;
+            seq.new = n;
+            seq.alg = crate::gen::Alg::Patience;
+        }
         let entry = *rng.pick(&[
             Entry::Slices,
             Entry::Slices,
@@ -429,6 +443,12 @@ impl Prop for C20 {
         ]);
         let r = if tier == Tier::Quick { 8 } else { 64 };
         let r = if size == Size::Large { r.min(16) } else { r };
+        let r = if huge { 3 } else { r };
+        let entry = if huge && !matches!(entry, Entry::Slices | Entry::Distinct) {
+            Entry::Slices
+        } else {
+            entry
+        };
         let allow_deg = seq.old.len() + seq.new.len() <= 200;
         let execs = (0..r)
             .map(|_| Exec {
@@ -495,6 +515,7 @@ impl Prop for C20 {
             ("map_iteration_order_differed_from_reference", agg.faults[F_ORDER_CHANGED]),
             ("text_over_100_tokens", agg.hits[24]),
             ("patience_gap_diffs", agg.hits[4]),
+            ("cases_with_over_1000_unique_items", agg.counters.get("huge_unique_cases").copied().unwrap_or(0)),
             ("real_randomstate_smoke_runs", agg.faults[F_REAL_RANDOMSTATE]),
         ]
     }
